@@ -356,6 +356,10 @@ class MomentsMonitor:
             return
         t = float(pd.time[n])
         dt = t - float(pd.time[n - 1])
+        if not all(np.all(np.isfinite(np.asarray(xx, dtype=float))) for xx in cap['x']):
+            # a non-finite distribution is a breach of C03 (reported there); moments cannot be judged on it
+            cnt['nonfinite_steps'] = cnt.get('nonfinite_steps', 0) + 1
+            return
         for p in range(len(m.phases)):
             x, R = cap['x'][p], cap['size'][p]
             m0, m1, m2, m3 = refs.moments(x, R)
